@@ -292,3 +292,36 @@ func TestC07Exhaustive(t *testing.T) {
 		t.Fatalf("%s", ct.first)
 	}
 }
+
+// TestC07Long: "for every text": there is no length limit in either symbology. Very long texts of high-valued
+// characters (sums and weighted sums far beyond 16 bits, symbols of several hundred thousand modules).
+func TestC07Long(t *testing.T) {
+	st := NewStats("C07", "long")
+	defer st.Flush()
+	ct := &collectTB{}
+	var cases []C39Case
+	for _, n := range []int{4000, 30000, 70000} {
+		for _, sym := range []int{39, 93} {
+			for _, unit := range []string{"%+/$", "Z%", "-. $/+%"} {
+				c := strings.Repeat(unit, n/len(unit))
+				cases = append(cases, C39Case{Sym: sym, Content: BStr(c), Checksum: true}, C39Case{Sym: sym, Content: BStr(c), Checksum: n == 30000, FullASCII: true})
+			}
+			cases = append(cases, C39Case{Sym: sym, Content: BStr(strings.Repeat("~z", n/2)), Checksum: true, FullASCII: true})
+		}
+	}
+	parallelFor(len(cases), 16, func(i int) {
+		if ct.Failed() {
+			return
+		}
+		ct.guard(func() {
+			ok := checkC39(ct, cases[i])
+			st.Eval()
+			c07Account(st, cases[i], ok)
+			st.Class(fmt.Sprintf("text of %d characters", len(cases[i].Content)))
+		})
+	})
+	st.Sample("long", map[string]any{"lengths": []int{4000, 30000, 70000}, "units": []string{"%+/$", "Z%", "-. $/+%", "~z"}})
+	if ct.Failed() {
+		t.Fatalf("%s", ct.first)
+	}
+}
